@@ -1030,6 +1030,8 @@ def check_loader_deprecated(case):
             runs = []
             for L in (mk(0), mk(0)):
                 order = [int(i) for i in L.batch_sampler.sampler.get_samples_for_epoch(L.epoch)]
+                if sorted(order) != list(range(n)):
+                    return "the loader (default file prefix / suffix) samples from %d utterances, the directory holds %d" % (len(order), n)
                 reported = len(L)
                 batches = list(L)
                 if reported != len(batches):
